@@ -110,7 +110,7 @@ PROPS = {
         "mc": {"quick": [mc("Life-stop-2x2", ops=("send", "stop", "drop", "halt"), scripts="ScriptsStop", cfgs="CfgsTwo", must_cover=("StopTaken", "MailboxClosed", "StoppedEnd"))],
                "thorough": [mc("Life-stop-2x2", ops=("send", "call", "stop", "drop", "halt"), scripts="ScriptsStop"),
                             mc("Life-stop-b1-2x3", maxops=3, ops=("send", "stop", "drop", "halt"), scripts="ScriptsStop", cfgs="CfgsB1")]},
-        "families": [("life", 200, 2000), ("restart", 80, 800), ("stream", 80, 800), ("timeout", 100, 1000), ("fail", 60, 600), ("mix", 120, 1200)],
+        "families": [("life", 200, 2000), ("restart", 80, 800), ("stream", 80, 800), ("timeout", 100, 1000), ("fail", 60, 600), ("timers", 100, 1000), ("mix", 120, 1200)],
         "relevant": r'"ev":"cb"', "relevant_min": 3,
     },
     "C04": {
@@ -155,7 +155,7 @@ PROPS = {
                "thorough": [mc("Restart-2x3", maxops=3, ops=("call", "restart", "stop"), scripts="ScriptsRestart", cfgs="CfgsStrat2"),
                             mc("Restart-3x2", clients=C3, ops=("send", "call", "restart"), scripts="ScriptsRestart", cfgs="CfgsStrat2", kinds="InitKindsSC")]},
         "dev_demo": [("D3", mc("Timers-race-1x1", clients=("c1",), maxops=1, ops=("send", "stop", "drop"), scripts="ScriptsTimers", cfgs="CfgsTimersQ", horizon=4))],
-        "families": [("restart", 250, 2500), ("timers", 150, 1500), ("mix", 120, 1200)],
+        "families": [("restart", 250, 2500), ("timers", 150, 1500), ("broker", 80, 800), ("mix", 120, 1200)],
         "relevant": r'"op":"restart"|ctx_restart', "relevant_min": 1,
     },
     "C08": {
